@@ -19,7 +19,7 @@ func (o *OCIDir) Close(ctx context.Context, r ref.Ref) error {
 
 	o.mu.Lock()
 	defer o.mu.Unlock()
-	if gc, ok := o.modRefs[r.Path]; !ok || !gc.mod || gc.locks > 0 {
+	if gc, ok := o.modRefs[gcKey(r)]; !ok || !gc.mod || gc.locks > 0 {
 		// unmodified or locked, skip gc
 		return nil
 	}
@@ -70,7 +70,7 @@ func (o *OCIDir) Close(ctx context.Context, r ref.Ref) error {
 			}
 		}
 	}
-	delete(o.modRefs, r.Path)
+	delete(o.modRefs, gcKey(r))
 	return nil
 }
 
